@@ -116,3 +116,12 @@ def MergedLine (endRe : Re) (ns : List Notice) (h o : Text) : Prop :=
        ((yearVal lo = yearVal hi ∧ ym = .single lo) ∨ (yearVal lo < yearVal hi ∧ ym = .range lo true true hi)))
 
 end Spec
+
+namespace Spec
+open Py Model
+
+/-- a year as people type it after `--year`: four ASCII digits -/
+def asciiDigit (c : Char) : Bool := decide (48 ≤ c.toNat) && decide (c.toNat ≤ 57)
+def asciiYear (y : Text) : Bool := y.length == 4 && y.all asciiDigit
+
+end Spec
